@@ -89,6 +89,14 @@ class Gen:
                     f["refs"].append(r.choice(vis))
             if fail_bias and r.chance(0.12):
                 f["refs"].insert(r.below(len(f["refs"]) + 1), r.choice(RES_FAIL))
+        # a scope provider call that starts a complete further load (keyed by the referenced name,
+        # so only for names referenced exactly once in this load)
+        allrefs = [x for f in names for x in f["refs"]]
+        for x in sorted(set(allrefs)):
+            if x not in RES_FAIL and allrefs.count(x) == 1 and x not in libitems and r.chance(0.15):
+                a = self.action(depth, 0)
+                if a is not None:
+                    self.behav["prov:" + x] = a
         # how the main model reaches textX: from its file, from a string with file_name=, or from a
         # bare string (no file name: registered under a generated key). A bare string cannot import.
         hows = [("file", 5), ("str_named", 2)]
@@ -117,15 +125,21 @@ def gen_scenario(r, i):
     for k in range(ntops):
         tops.append(g.load(0, fail_bias=r.chance(0.65)))
     classes, shape = r.choice(CLASS_SETS), r.choice(SHAPES)
-    if "Model" in classes and shape in ("slots", "frozen"):
-        # a root model object that cannot take `_tx_parser` makes every load with an object
-        # processor fail in get_location; not a case of this property
-        shape = r.choice(["plain", "own", "getattr"])
+    # ("Model" with __slots__ / frozen: the root object cannot take `_tx_parser`, so the first object
+    # processor call fails in get_location - one more failure point, see Compiler.rootless)
     sc = {"classes": classes, "shape": shape, "global": False, "loads": g.loads, "behav": g.behav,
           "tops": tops, "gc_check": True, "next_check": r.chance(0.5), "provider": provider, "libs": g.libs}
     # a metamodel-global repository only without callback-started loads (they would share it)
-    if not any(isinstance(a, list) for a in g.behav.values()) and r.chance(0.35 if provider == "importuri" else 0.6):
+    nested = any(isinstance(a, list) for a in g.behav.values())
+    if not nested and r.chance(0.35 if provider == "importuri" else 0.6):
         sc["global"] = True
+    elif nested and r.chance(0.12):
+        # loads started from callbacks that SHARE the metamodel-global repository with the running
+        # load: textX lets the inner load resolve, end or abort the outer load's models, the outer load
+        # then usually dies of an internal error.  The machine does not describe that interference;
+        # such scenarios are run for the property oracles only (C14/C15 must hold all the same)
+        sc["global"] = True
+        sc["oracle_only"] = True
     return sc
 
 
@@ -144,6 +158,9 @@ class Compiler:
         self.libs = sc.get("libs", []) if sc.get("provider", "importuri") != "importuri" else []
         self.repo_provider = sc.get("provider", "importuri") != "importuri"
         self.cached = set()       # files that stay in the metamodel-global repository (successful loads)
+        # a user root-model class that cannot store `_tx_parser`: get_location raises at the first
+        # object processor call of every load
+        self.rootless = "Model" in self.user and sc["shape"] in ("slots", "frozen")
 
     def op(self, o):
         self.ops.append(o)
@@ -222,7 +239,21 @@ class Compiler:
         self.cur_how = saved_how
         if not ok:
             return False
-        if any(x in RES_FAIL for f in files for x in f["refs"]):
+        # the resolution loop: models in repository order, references in text order; an unknown
+        # object or a provider exception raises at once, a postponed reference after the others
+        postponed = False
+        for f in files:
+            for x in f["refs"]:
+                if x in ("unknownx", "provboom"):
+                    self.op("Fail")
+                    return False
+                if x == "postp":
+                    postponed = True
+                    continue
+                if not self.action(b.get("prov:" + x)):
+                    self.op("Fail")
+                    return False
+        if postponed:
             self.op("Fail")
             return False
         self.op("ResolveOk")
@@ -243,6 +274,9 @@ class Compiler:
                     return False
         for f in files:
             for it in f["items"]:
+                if self.rootless:
+                    self.op("Fail")
+                    return False
                 act = b.get("proc:" + it["name"])
                 if act == "boom":
                     self.op("Proc false")
@@ -309,6 +343,20 @@ Definition show_ek (k : ekind) : string := match k with
   | KFail c => "F " ++ show_nat c
   | KFinish c => "E " ++ show_nat c end.
 Definition show_ev (e : event) : string := show_ek (e_kind e) ++ " " ++ show_nat (e_count e) ++ " " ++ show_nat (e_store e).
+Definition show_t (t : target) : string := match t with ToStorage => "S" | ToUser _ => "U" | ToBase => "B" end.
+Definition probe (k : cls) (x : nat) : string :=
+  show_t (acting_set k x) ++ show_t (acting_get k x true) ++ show_t (acting_get k x false) ++
+  show_t (acting_del k x true) ++ show_t (acting_del k x false).
+Definition probed (e : event) : bool := match e_kind e with KInit _ _ | KProc _ => true | _ => false end.
+(* oldest first; objs = the objects allocated before the event *)
+Fixpoint show_log (objs : list nat) (l : list event) : list string :=
+  match l with
+  | [] => []
+  | e :: l' =>
+      let objs' := match e_kind e with KAlloc _ _ o _ => (objs ++ [o])%%list | _ => objs end in
+      (show_ev e ++ (if probed e then " " ++ sjoin "," (map (fun o => show_nat o ++ ":" ++ probe (e_cls e) o) objs') else ""))
+      :: show_log objs' l'
+  end.
 Definition d_of (a b c d : slot) : list N -> slot := fun x =>
   if str_eqb x n_setattr then a else if str_eqb x n_delattr then b else if str_eqb x n_getattribute then c
   else if str_eqb x n_getattr then d else Absent.
@@ -317,7 +365,7 @@ Definition show_state (s : state) : string :=
   sjoin "," (map (fun a => show_slot (k_dict (s_cls s) a)) names4) ++ "|" ++
   sjoin "," (map (fun a => show_opt show_slot (k_saved (s_cls s) a)) names4) ++ "|" ++
   show_nat (List.length (s_ctxs s)) ++ "|" ++ sjoin "," (map show_nat (s_repo s)) ++ "|" ++
-  sjoin ";" (map show_ev (rev (s_log s))).
+  sjoin ";" (show_log [] (rev (s_log s))).
 Definition go (d0 : list N -> slot) (ops : list op) : string := show_state (run replace_names restore_names (init d0) ops).
 """ % tuple(core.coq_str(x) for x in ("setattr", "delattr", "getattribute", "getattr"))
 
@@ -341,10 +389,20 @@ def parse_model(text, no_classes=False):
     parents = {}
     entries = [x.split(" ") for x in log.split(";") if x]
     cmap = {c: i for i, c in enumerate(sorted({int(w[1]) for w in entries}))}
+    probes = {}
     for w in entries:
         k = w[0]
         c = cmap[int(w[1])]
-        cnt, st = (0, 0) if no_classes else (int(w[-2]), int(w[-1]))
+        base = {"A": 5, "I": 3, "S": 2, "R": 2, "P": 2, "F": 2, "E": 2}[k]
+        cnt, st = (0, 0) if no_classes else (int(w[base]), int(w[base + 1]))
+        if k in ("I", "P"):
+            pr = {}
+            for item in (w[base + 2] if len(w) > base + 2 else "").split(","):
+                if item:
+                    o, letters = item.split(":")
+                    # set: exact; read / delete: the user's own method or not
+                    pr[str(omap[o])] = letters[0] + "".join("U" if x == "U" else "N" for x in letters[1:])
+            probes[str(len(events))] = pr
         if k == "A":
             m = mmap.setdefault(w[2], len(mmap))
             o = omap.setdefault(w[3], len(omap))
@@ -358,7 +416,7 @@ def parse_model(text, no_classes=False):
     if no_classes:
         count = store = "0"
     return {"count": int(count), "store": int(store), "dict": dct, "saved": saved, "nctx": int(nctx),
-            "repo": [mmap.get(x, x) for x in repo.split(",") if x], "events": events, "parents": parents}
+            "repo": [mmap.get(x, x) for x in repo.split(",") if x], "events": events, "parents": parents, "probes": probes}
 
 
 def impl_events(obs):
@@ -412,6 +470,20 @@ def oracle_c14(sc, obs, tops_ok, loads_info):
                 bad.append(("__init__ of Ref object %s received an unresolved reference" % n, ["init_resolved"]))
             if rec.get("subs_ok") is False:
                 bad.append(("__init__ of Item object %s received foreign children" % n, ["init_args"]))
+    # during loading an initialised object is handled by what its class defined itself
+    want = {"own": "UUUUU", "frozen": "UNNNN"}.get(sc["shape"], "BNNNN")
+    inited = set()
+    for idx, e in enumerate(evs):
+        if e[0] == "I":
+            inited.add(e[2])
+        pr = obs.get("probes", {}).get(str(idx))
+        if pr:
+            for o in sorted(inited, key=int):
+                if str(o) in pr and pr[str(o)] != want:
+                    bad.append(("during the load (event %d %r) attribute access on the initialised object %d is handled by %s, the class itself gives %s "
+                                "(set/read/read missing/delete/delete missing: U = the class's own method, S = textX storage, B/N = inherited)" % (idx, e[:3], o, pr[str(o)], want),
+                                ["own_accessors"]))
+                    break
     # __init__ before any object processor of the same load
     seen_proc = set()
     for e in evs:
@@ -473,6 +545,14 @@ def compare(sc, obs, model, tops_ok, loads_info):
                 return "event %d differs: implementation %r, model %r" % (i, a, b)
         return "event logs differ in length: implementation %d, model %d (next: %r)" % (
             len(ie), len(model["events"]), (ie + model["events"])[min(len(ie), len(model["events"]))])
+    # attribute access at every __init__ and object processor call, on every object allocated so far
+    if sc["classes"]:
+        for idx, pr in sorted(obs.get("probes", {}).items(), key=lambda x: int(x[0])):
+            mp = model["probes"].get(idx)
+            if mp != pr:
+                o = next((o for o in pr if (mp or {}).get(o) != pr[o]), None)
+                return "attribute access at event %s (%r): object %s is handled by %r in the implementation, %r in the model (set, read, read missing, delete, delete missing)" % (
+                    idx, ie[int(idx)], o, pr.get(o), (mp or {}).get(o))
     outcomes = [t["outcome"] == "ok" for t in obs["tops"]]
     if outcomes != tops_ok:
         return "top-level outcomes differ: implementation %r, expected %r" % ([t["outcome"] for t in obs["tops"]], tops_ok)
@@ -529,7 +609,10 @@ def run_cases(chk, cases, tag):
         o = obs[id(sc)]
         model = parse_model(mv, no_classes=not sc["classes"]) if mv is not None else None
         dis = None
-        if model is not None:
+        if model is not None and sc.get("oracle_only"):
+            if "harness_error" in o:
+                dis = "runner failed: " + o["harness_error"][-400:]
+        elif model is not None:
             dis = compare(sc, o, model, tops_ok, info)
             if dis is None and (model["dict"] != SHAPE_SHOW[sc["shape"]] or model["saved"] != "None,None,None,None"):
                 dis = "model ends with methods %s / saved %s" % (model["dict"], model["saved"])
@@ -538,7 +621,7 @@ def run_cases(chk, cases, tag):
 
 
 def describe(sc):
-    return {"classes": sc["classes"], "shape": sc["shape"], "global": sc["global"], "tops": sc["tops"], "loads": sc["loads"], "behav": sc["behav"],
+    return {"classes": sc["classes"], "shape": sc["shape"], "global": sc["global"], "oracle_only": sc.get("oracle_only", False), "tops": sc["tops"], "loads": sc["loads"], "behav": sc["behav"],
             "provider": sc.get("provider", "importuri"), "libs": sc.get("libs", [])}
 
 
@@ -551,6 +634,8 @@ def scenario_stats(chk, sc, obs, tops_ok, info, ops):
     if sc["global"]:
         chk.stat("global repository")
     chk.stat("provider:" + sc.get("provider", "importuri"))
+    if sc.get("oracle_only"):
+        chk.stat("oracle only (callback-started load sharing the global repository)")
     for l in sc["loads"].values():
         chk.stat("main from:" + l.get("how", "file"))
     nfiles = sum(len(all_files_of_load(sc, l)) for l in sc["loads"])
